@@ -429,6 +429,73 @@ def run_empty_results(ctx, byte):
             ctx.fail(case, f"{name}: expected an empty result of shape {shape}, got shape {getattr(R, "shape", None)}: {R!r}", ["size0"])
 
 
+def run_float_rounding(ctx, byte):
+    """products in the narrow floating types are numpy's arithmetic in THAT type, rounded after every operation
+    (seeded change C12-11: narrow operands multiplied in float64 and cast back once): for (a0 + a1*q0)*(b0 + b1*q0) the
+    coefficient of q0 is fl(fl(a0*b1) + fl(a1*b0))"""
+    rng = numpy.random.default_rng(12345)
+    for dt in ("float16", "float32", "complex64"):
+        T = numpy.dtype(dt).type
+        for k in range(40):
+            vals = [T(v) for v in rng.uniform(0.001, 3.0, size=4) * rng.choice([1, -1], size=4)]
+            if k % 5 == 0 and dt == "float16":
+                vals = [T(250.0), T(-250.0), T(251.0), T(249.0)]      # partial products near the float16 limit
+            a0, a1, b0, b1 = vals
+            with numpy.errstate(all="ignore"), warnings.catch_warnings():
+                warnings.simplefilter("ignore")
+                want = {0: a0 * b0, 1: a0 * b1 + a1 * b0, 2: a1 * b1}
+                A = numpoly.polynomial_from_attributes([[0], [1]], [numpy.array(a0), numpy.array(a1)], ("q0",), dtype=dt)
+                B = numpoly.polynomial_from_attributes([[0], [1]], [numpy.array(b0), numpy.array(b1)], ("q0",), dtype=dt)
+                case = {"kind": "arith", "op": "float-rounding", "a": dt, "values": [repr(v) for v in vals]}
+                ctx.evaluations += 1
+                ctx.count("float-rounding")
+                try:
+                    R = A * B
+                except Exception as err:  # noqa: BLE001
+                    ctx.fail(case, f"{dt} product raised {type(err).__name__}: {str(err)[:100]}", ["arith", "float-rounding", "raises"])
+                    continue
+                got = {int(e[0]): c for e, c in zip(R.exponents.tolist(), R.coefficients)}
+                for e, w in want.items():
+                    g = got.get(e, T(0))
+                    if R.dtype != numpy.dtype(dt) or not (numpy.asarray(g) == w or (numpy.isnan(g) and numpy.isnan(w))):
+                        if w == 0 and e not in got:
+                            continue
+                        ctx.fail(case, f"({dt}) ({a0!r} + {a1!r}*q0) * ({b0!r} + {b1!r}*q0): coefficient of q0**{e} is {g!r} "
+                                 f"(dtype {R.dtype}), {dt} arithmetic gives {w!r}", ["arith", "float-rounding", "value"])
+                        break
+
+
+def run_readonly(ctx, byte):
+    """coefficient data the constructors may only read (frozen arrays, views of immutable buffers), already contiguous and
+    of the final dtype (seeded change C12-12: the writable requirement dropped before the compiled writer)"""
+    for dt in DTYPES:
+        x = data(dt)
+        frozen = x.copy()
+        frozen.setflags(write=False)
+        buf = numpy.frombuffer(x.tobytes(), dtype=dt)
+        for label, src in (("frozen array", frozen), ("frombuffer", buf)):
+            routes = {"polynomial": lambda: numpoly.polynomial(src), "aspolynomial": lambda: numpoly.aspolynomial(src),
+                      "from_attributes": lambda: numpoly.polynomial_from_attributes([[0]], [src]),
+                      "x + q0": lambda: src + numpoly.variable(), "x * q0": lambda: src * numpoly.variable()}
+            for route, f in routes.items():
+                case = {"kind": "readonly", "dtype": dt, "source": label, "route": route}
+                ctx.evaluations += 1
+                ctx.count("readonly")
+                try:
+                    with warnings.catch_warnings():
+                        warnings.simplefilter("ignore")
+                        R = f()
+                except Exception as err:  # noqa: BLE001
+                    if dt == "bool" and route in ("x + q0", "x * q0"):
+                        continue
+                    ctx.fail(case, f"{route} of read-only {dt} data ({label}) raised {type(err).__name__}: {str(err)[:100]}", ["readonly", "raises"])
+                    continue
+                if poisoned(R, byte):
+                    ctx.fail(case, f"{route} of read-only {dt} data ({label}) holds unwritten memory", ["readonly", "poison"])
+                elif not numpy.array_equal(src, x):
+                    ctx.fail(case, f"{route} changed its read-only input", ["readonly", "mutated"])
+
+
 def run(ctx):
     ctx.rule = RULE
     ctx.exhaustive = True
@@ -443,6 +510,8 @@ def run(ctx):
             run_arithmetic(ctx, byte)
             run_shape_functions(ctx, byte)
             run_empty_results(ctx, byte)
+            run_float_rounding(ctx, byte)
+            run_readonly(ctx, byte)
     ctx.extra["poison_bytes"] = [hex(b) for b in bytes_]
     ctx.sample({"constructor": "polynomial", "src": "int32", "req": "float32", "data": data("int32").tolist(),
                 "expected": data("int32").astype("float32").tolist()})
@@ -457,8 +526,11 @@ def search(ctx):
 def replay(ctx, case):
     n = len(ctx.failures)
     with poison(0xA5):
-        {"constructor": run_constructors, "mixed": run_mixed, "weak": run_weak_scalars, "inferred": run_inferred_dtype, "arith": run_arithmetic, "shape": run_shape_functions,
-         "empty": run_empty_results, "size0": run_empty_results}[case["kind"]](ctx, 0xA5)
+        if case["kind"] == "arith" and case.get("op") == "float-rounding":
+            run_float_rounding(ctx, 0xA5)
+        else:
+            {"constructor": run_constructors, "mixed": run_mixed, "weak": run_weak_scalars, "inferred": run_inferred_dtype, "arith": run_arithmetic,
+             "shape": run_shape_functions, "empty": run_empty_results, "size0": run_empty_results, "readonly": run_readonly}[case["kind"]](ctx, 0xA5)
     keys = [k for k in ("constructor", "src", "req", "op", "a", "b", "what", "dtype") if k in case]
     hits = [f for f in ctx.failures[n:] if all(f["case"].get(k) == case[k] for k in keys)]
     return hits[0]["what"] if hits else None
